@@ -1,6 +1,6 @@
 (* Props/C06.v — cw3: each ballot is one eligible voter's weight from the proposal's own snapshot. *)
 Require Import CwPlus.Params CwPlus.Base CwPlus.AMap CwPlus.Cw3Threshold CwPlus.Cw4Model CwPlus.Cw4Snap CwPlus.Cw4Lemmas
-  CwPlus.Cw3Model CwPlus.Cw3Lemmas CwPlus.Cw3Lemmas2.
+  CwPlus.Cw3Model CwPlus.Cw3Lemmas CwPlus.Cw3Lemmas2 CwPlus.Cw3Lemmas4.
 Open Scope N_scope.
 
 (* a vote is accepted only from an address with no ballot yet on that proposal, before expiry, on a
@@ -58,6 +58,20 @@ Theorem c06_flex_propose_outside_known : forall ms g top blk sender title msgs l
     p_total p = m_sum (members g).
 Proof. exact flex_propose_snapshot. Qed.
 
+(* over EVERY interleaving of multisig calls (any callers, nested ones included) and transactions on
+   the backing group (both models), in non-decreasing blocks, that stays outside class D3 (no Propose
+   accepted in a block in which the group was changed earlier): the ballots of every proposal never
+   outweigh its total, because total, proposer weight and every voter's weight all come from the one
+   group state the proposal was opened against *)
+Theorem c06_flex_ballots_within_total : forall cs w top id p,
+  Cw3Lemmas4.FInv w top -> fmono top cs -> outside_d3 w cs ->
+  getp (fst (frun w cs)) id = Some p -> tally (p_votes p) <= p_total p.
+Proof. exact flex_ballots_within_total. Qed.
+
+Theorem c06_flex_initial : forall m gv ms g top, Cw3Model.instantiate m gv = Ok ms -> i_flex m = true ->
+  Cw4Lemmas.WInv g top -> Cw3Lemmas4.FInv (ms, g) top.
+Proof. exact flex_initial. Qed.
+
 (* ... and NOT otherwise: known finding D3 (a concrete history of the faithful model in which the
    ballots, 11, outweigh the recorded total, 2) *)
 Theorem c06_refuted :
@@ -76,4 +90,6 @@ Print Assumptions c06_fixed.
 Print Assumptions c06_flex_vote.
 Print Assumptions c06_later_changes_irrelevant.
 Print Assumptions c06_flex_propose_outside_known.
+Print Assumptions c06_flex_ballots_within_total.
+Print Assumptions c06_flex_initial.
 Print Assumptions c06_refuted.
